@@ -1425,3 +1425,7 @@ TABLE["C16"] += [
       (MW, "        content = \"\"\n        modules = {}\n        for file in files:\n            with open(file, 'r', encoding=\"UTF-8\") as f:\n                # Keep the files apart: the last line of one file must not run\n                # into the first line of the next.\n                content += f.read() + \"\\n\"\n",
        "        modules = {}\n        texts = []\n        for file in files:\n            with open(file, 'r', encoding=\"UTF-8\") as f:\n                texts.append(f.read())\n        content = \"\\n\".join(texts) + \"\\n\"\n")),
 ]
+TABLE["C17"] += [
+    B("argument-less-methods-skip-the-filter", {"Q5"},
+      (XP, "        member_defs = []\n\n        # Optional parameters we should ignore", "        member_defs = []\n        if not method_args_names:\n            return list(maybe_member_defs), []\n\n        # Optional parameters we should ignore")),
+]
